@@ -134,7 +134,11 @@ func cmdUnit(args []string) {
 			continue
 		}
 		gen := time.Since(t1)
-		discharge(res.Obls, fmt.Sprintf("/verif/out/unit.%d", os.Getpid()), secs, 6)
+		outDir := fmt.Sprintf("/verif/out/unit.%d", os.Getpid())
+		if d := os.Getenv("GOVC_OUT"); d != "" {
+			outDir = d // development aid: keep the query files of this run in a directory of one's own
+		}
+		discharge(res.Obls, outDir, secs, 6)
 		n, ok := 0, 0
 		for _, o := range res.Obls {
 			if o.ExpectSat {
